@@ -16,6 +16,7 @@ def run(chk, tier):
         chk.broke("goto/label at %s: structural dominance is not valid" % g)
     gguard.check(chk)
     gcalls.check(chk)
+    gcalls.check_required_rules(chk)
     ghaz.check_main(chk)
     gtab.check(chk, gen.facts(), which=("keys", "sizes", "classes"))
     # build-level fact: every corpus / build schema (all valid by construction, several on rule boundaries) is accepted
